@@ -11,10 +11,6 @@ open Nitime.C09.Props
 #print axioms seed_rows_eq_dense
 #print axioms cache_psd_eq_dense
 #print axioms cache_psd_eq_dense_unscaled
-#print axioms cache_psd_current_band_edge
-#print axioms cache_psd_current_single_window
 #print axioms cache_relphase_eq_dense_angle
 #print axioms cache_freqs_eq_dense
-#print axioms cache_freqs_odd_counterexample
 #print axioms defaults_agree
-#print axioms defaults_current_agree_iff_even
